@@ -27,6 +27,7 @@ from, so that a Verus diagnostic can be turned into a named obligation.
     @after /regex/             text inserted immediately after the unique match
     @bind /regex/ <name>       R8: the unique match E (a tail expression) becomes
       ...                         `{ let name = E; <text> name }`
+    @wrap /regex/              R8: the unique match E becomes `{ <text> E }` (ghost text before an arm expression)
     @replace /regex/ [count=n] [rule=R5]    replacement (python re syntax, \\1 groups)
       ...
     @rule R1|R7                apply an automatic rewrite rule to this item
@@ -375,6 +376,16 @@ def process_extract(gen, sec, vu_path):
                 add_ins(s, d, '', '\n')
             else:
                 add_ins(e, d, '\n', '\n')
+        elif n == 'wrap':
+            rx, opts = parse_regex_arg(d['arg'], where)
+            s, e = uniq(rx, d, opts)
+            edits.append((s, s, '({ ', 'gen', 'R8 wrap-block'))
+            body = '\n'.join(l for _, l in d['text'])
+            first = d['text'][0][0] if d['text'] else d['line']
+            edits.append((s, s, body + '\n', 'spec', (d.get('file_override') or vu_path, first, d)))
+            edits.append((e, e, ' })', 'gen', 'R8 wrap-block'))
+            gen.rules.append({'rule': 'R8 wrap-block', 'item': item_name, 'file': relfile,
+                              'line': item.line_of(item.start + s), 'before': text[s:e][:120]})
         elif n == 'bind':
             rx, name = parse_regex_arg(d['arg'], where)
             name, _, opts = name.partition(' ')
